@@ -5,6 +5,8 @@ zndriver: the Lean side of the line protocol.  One operation per input line, one
 import ZnVerif.Ops.C04
 import ZnVerif.Ops.Run
 import ZnVerif.Ops.C12
+import ZnVerif.Ops.C17
+import ZnVerif.Ops.C06
 
 open ZnVerif.Ops
 
@@ -12,7 +14,9 @@ open ZnVerif.Ops
 def handlers : List (String → List String → Option String) := [
   C04.handle,
   Run.handle,
-  C12.handle
+  C12.handle,
+  C17.handle,
+  C06.handle
 ]
 
 def dispatch (op : String) (args : List String) : String :=
